@@ -3,5 +3,5 @@ CONSTANTS
   H = {1, 2, 3}
   MaxLen = 6
 VIEW view
-INVARIANTS OneWriter WriterExclusive Released
+INVARIANTS OneWriter WriterExclusive Released ReadOnlyNeverRepairs
 CHECK_DEADLOCK FALSE
